@@ -24,6 +24,8 @@ CHECKS = {
          "1..64 members with bursts (up to 120 queued messages), members added before/with queued traffic/already disconnected/between selects, senders dropped or held, EINTR and short batches injected into epoll_wait; oracle: per member exactly its send sequence under the id add returned, exactly one closure and only when really disconnected, no duplicate ids, and nothing pending while the selector sleeps in select at quiescence. Sampling, not proof.", "5/C06"),
  "C07": ("exploration", "deterministic simulation: seeded schedules of registering threads, senders, consumers and the router thread; EINTR/short batches; per-route history oracle with drop guards",
          "1..32 routes (callbacks with drop guards, new crossbeam receivers, bounded caller-supplied crossbeam senders with slow consumers) registered from 1..8 threads with 0..50 messages queued before registration; oracle: each handler sees exactly its messages in order, nothing else, is dropped exactly once, only after its channel is really disconnected, and has been dropped at quiescence. Sampling, not proof.", "5/C07"),
+ "C17": ("exploration", "deterministic simulation: seeded schedules of shutdown()/proxy drop racing add_route, traffic and the router thread; quiescence oracle (thread exited, guards fired, nobody blocked, no panic)",
+         "Routers with 0..16 live routes and traffic in flight are stopped by shutdown() from 1..4 threads racing add_route from others, or by dropping the proxy, followed by further sends and add_route calls; oracle: no callback after shutdown returned, every callback registered before the call dropped by then, all handlers dropped and the router thread gone at quiescence, late routes never invoked, no panic, no deadlock. Sampling, not proof.", "5/C17"),
 }
 PENDING = "check not built yet (work in progress in this session; will be claimed once its simulation scenario exists)"
 
